@@ -3,6 +3,7 @@ package main
 import (
 	"bytes"
 	"fmt"
+	"io"
 	"os"
 	"path/filepath"
 	"strings"
@@ -86,7 +87,7 @@ func execNoPanic(a []string) string {
 	defer closeWAF(waf)
 	r := withWatchdog(func() string {
 		tx := waf.NewTransaction()
-		defer tx.Close()
+		defer func() { tx.Close() }()
 		// script: lines "<op> <arg…>"
 		for _, l := range strings.Split(script, "\n") {
 			p := strings.SplitN(l, "\x00", 3)
@@ -122,6 +123,18 @@ func execNoPanic(a []string) string {
 				tx.ProcessResponseBody()
 			case "lg":
 				tx.ProcessLogging()
+			case "newtx":
+				// the connector is done with this request and serves the next one on the same WAF (a recycled object)
+				tx.Close()
+				tx = waf.NewTransaction()
+			case "rqr":
+				if rd, err := tx.RequestBodyReader(); err == nil && rd != nil {
+					io.Copy(io.Discard, rd)
+				}
+			case "rsr":
+				if rd, err := tx.ResponseBodyReader(); err == nil && rd != nil {
+					io.Copy(io.Discard, rd)
+				}
 			case "mr":
 				for _, m := range tx.MatchedRules() {
 					_ = m.ErrorLog()
@@ -328,8 +341,8 @@ func init() {
 			}
 			// request script
 			var sc []string
-			for k := c.r.Intn(10); k > 0; k-- {
-				op := c.r.Pick("conn", "uri", "hdr", "hdr", "get", "post", "h1", "wb", "rb", "b2", "rhdr", "h3", "wr", "b4", "lg", "mr")
+			for k := c.r.Intn(14); k > 0; k-- {
+				op := c.r.Pick("conn", "uri", "hdr", "hdr", "get", "post", "h1", "wb", "rb", "b2", "rhdr", "h3", "wr", "b4", "lg", "mr", "newtx", "rqr", "rsr", "wb", "lg")
 				a1, a2 := c.r.Bytes(3), c.r.Bytes(3)
 				if c.r.Chance(0.08) {
 					// long values around the 280-byte log truncation, made of multi-byte pieces
@@ -369,6 +382,33 @@ func init() {
 				long := strings.Repeat(c.r.Pick("\x80", "a", "\xc3\xa9", "\xe4\xbd\xa0", "\xf0\x9f\x98\x80", "%80", "\""), 275+c.r.Intn(12))
 				sc = []string{"uri\x00/p?q=" + long + "\x00GET", "get\x00" + long + "\x00" + long, "hdr\x00X\x00" + long, "h1\x00\x00", "mr\x00\x00", "lg\x00\x00"}
 				c.stats.Hit("profile:logging-stress")
+			}
+			if i%10 == 4 {
+				// body stress over recycled transactions: small limits (bodies spill to a file, reach the limit, are cut),
+				// two to four requests served one after the other by one WAF, each a random subset of writes, reads of the
+				// buffered bodies by the connector, phases and logging with the bodies in the audit record
+				cfg = "SecRuleEngine " + c.r.Pick("On", "DetectionOnly") + "\nSecRequestBodyAccess On\nSecResponseBodyAccess On\nSecResponseBodyMimeType text/plain\n" +
+					"SecRequestBodyInMemoryLimit " + fmt.Sprint(1+c.r.Intn(8)) + "\nSecRequestBodyLimit " + fmt.Sprint(4+c.r.Intn(30)) + "\nSecResponseBodyLimit " + fmt.Sprint(4+c.r.Intn(30)) + "\n" +
+					"SecRequestBodyLimitAction " + c.r.Pick("Reject", "ProcessPartial") + "\nSecResponseBodyLimitAction " + c.r.Pick("Reject", "ProcessPartial") + "\n" +
+					"SecAuditEngine On\nSecAuditLogParts ABCEFHZ\nSecAuditLogFormat " + c.r.Pick("Native", "JSON") + "\nSecAuditLog " + filepath.Join(safeDir(), "a.log") + "\n" +
+					"SecRule REQUEST_BODY|RESPONSE_BODY|ARGS \"@contains a\" \"id:1,phase:" + fmt.Sprint(2+c.r.Intn(3)) + ",pass,log,auditlog\""
+				sc = nil
+				for t := 2 + c.r.Intn(3); t > 0; t-- {
+					sc = append(sc, "hdr\x00Content-Type\x00"+c.r.Pick("text/plain", "application/x-www-form-urlencoded", "application/json"), "h1\x00\x00")
+					for k := c.r.Intn(4); k > 0; k-- {
+						sc = append(sc, c.r.Pick("wb", "wb", "rb")+"\x00"+strings.Repeat("a", c.r.Intn(24))+"\x00")
+					}
+					for _, op := range []string{"b2", "rqr", "rhdr\x00Content-Type\x00text/plain", "h3", "wr\x00" + strings.Repeat("a", c.r.Intn(24)), "b4", "rsr", "rqr", "lg"} {
+						if c.r.Chance(0.7) {
+							if !strings.Contains(op, "\x00") {
+								op += "\x00\x00"
+							}
+							sc = append(sc, op)
+						}
+					}
+					sc = append(sc, "newtx\x00\x00")
+				}
+				c.stats.Hit("profile:body-stress")
 			}
 			obs := c.run("nopanic", gen.Field(cfg), gen.Field(strings.Join(sc, "\n")))
 			c.stats.Hit("obs:" + strings.ReplaceAll(obs, " ", ","))
